@@ -498,7 +498,8 @@ pub fn read_raw<T: Read + Seek>(r: &mut E57Reader<T>, pc: &PointCloud, cap: usiz
 #[derive(Clone, Copy, Debug, PartialEq, Eq)]
 pub struct Opts(pub u8);
 impl Opts {
-    pub const DEFAULT: Opts = Opts(0b111011); // s2c, !c2s, i2c, ni, nc, pose
+    /// the library's defaults: s2c (bit 0) on, c2s (bit 1) off, i2c, ni, nc, pose on
+    pub const DEFAULT: Opts = Opts(0b111101);
     pub fn s2c(&self) -> bool {
         self.0 & 1 != 0
     }
